@@ -1,7 +1,18 @@
-import json, sys, glob
+import glob
+import json
+import sys
+
 import jsonschema
+
 jsonschema.validate(json.load(open('/verif/MANIFEST.json')), json.load(open('/root/.vp/MANIFEST.schema.json')))
-for f in glob.glob('/verif/evidence/*.json'):
-    jsonschema.validate(json.load(open(f)), json.load(open('/root/.vp/EVIDENCE.schema.json')))
-    print("ok", f)
 print("manifest ok")
+schema = json.load(open('/root/.vp/EVIDENCE.schema.json'))
+bad = 0
+for f in sorted(glob.glob('/verif/evidence/*.json')):
+    try:
+        jsonschema.validate(json.load(open(f)), schema)
+        print("ok", f)
+    except jsonschema.ValidationError as e:
+        bad += 1
+        print("INVALID", f, "::", e.message, "at", "/".join(str(x) for x in e.absolute_path))
+sys.exit(1 if bad else 0)
